@@ -33,7 +33,9 @@ class Poly:
                 d[k] = d.get(k, 0) + v1 * v2
         return Poly(d)
 
-    def __eq__(self, o): return self.d == o.d
+    def __eq__(self, o): return isinstance(o, Poly) and self.d == o.d
+
+    def __hash__(self): return hash(tuple(sorted(self.d.items())))
 
     def is_const(self, c=None):
         if any(k != () for k in self.d): return False
